@@ -89,6 +89,10 @@ class Stats(dict[str, Any]):
         dict.__setitem__(self, key, val)
         self.__changed.add(key)
 
+    def __missing__(self, key: str) -> int:
+        # a counter nobody initialised (receive-operational, ...) starts at zero instead of raising KeyError
+        return 0
+
     def changed_statistics(self) -> Iterator[str]:
         for name in self.__changed:
             formater = self.__format.get(name, lambda v: f'counter {v}')
